@@ -1,30 +1,35 @@
 #!/bin/sh
 # usage: tools/eval_seeded.sh <property id> <mutant number> [check ids...]
 # Confirms a sub-agent's seeded change (tests pass with it, demo fails with it and passes without), runs the quick
-# check(s) against it, and files it under /verif/seeded/<pid>_m<n>/.  /repo is restored afterwards.
+# check(s) against it, and files it under /verif/seeded/<pid>_m<n>/.
+# The change is applied in a scratch worktree of /repo (LENTIL_REPO points the checks at it), never in /repo itself,
+# so that other runs using /repo are not disturbed; the worktree is reset afterwards.
 pid=$1; n=$2; shift 2
 checks="${@:-$pid}"
 src=/tmp/wt_$pid/out
 dst=/verif/seeded/${pid}_m$n
-cd /repo || exit 2
-git diff --quiet || { echo "repo dirty"; exit 2; }
-LENTIL_REPO=/repo /venv/bin/python $src/mut${n}_demo.py > /tmp/demo_clean.log 2>&1; d0=$?
+wt=/tmp/wt_eval
+[ -d $wt ] || git -C /repo worktree add -q $wt HEAD
+cd $wt || exit 2
+git checkout -q --detach "$(git -C /repo rev-parse HEAD)" && git checkout -q -- . && git clean -fdq
+LENTIL_REPO=$wt /venv/bin/python $src/mut${n}_demo.py > /tmp/demo_clean.log 2>&1; d0=$?
 git apply $src/mut$n.diff || { echo "PATCH DOES NOT APPLY"; exit 2; }
 tests=$(/venv/bin/python -m pytest -q -p no:cacheprovider 2>&1 | tail -1)
-LENTIL_REPO=/repo /venv/bin/python $src/mut${n}_demo.py > /tmp/demo_mut.log 2>&1; d1=$?
+LENTIL_REPO=$wt /venv/bin/python $src/mut${n}_demo.py > /tmp/demo_mut.log 2>&1; d1=$?
 cd /verif
 res=""
 for id in $checks; do
-  ./check $id --tier quick > /tmp/seeded_${pid}_m${n}_$id.log 2>&1; rc=$?
+  LENTIL_REPO=$wt ./check $id --tier quick > /tmp/seeded_${pid}_m${n}_$id.log 2>&1; rc=$?
   nv=$(grep -c '^VIOLATION' /tmp/seeded_${pid}_m${n}_$id.log)
   res="$res $id:rc=$rc:violations=$nv"
   echo "check $id rc=$rc violations=$nv"; grep 'sig=' /tmp/seeded_${pid}_m${n}_$id.log | head -3
 done
-cd /repo && git checkout -- . 
+cd $wt && git checkout -q -- . && git clean -fdq
 echo "tests: $tests | demo clean exit=$d0 mutated exit=$d1"
 mkdir -p $dst
 cp $src/mut$n.diff $dst/patch.diff; cp $src/mut${n}_demo.py $dst/demo.py; cp $src/mut$n.txt $dst/description.txt
 cat > $dst/meta.json <<EOM
 {"property": "$pid", "mutant": $n, "tests_with_change": "$tests", "demo_exit_clean": $d0, "demo_exit_mutated": $d1,
- "checks_run": "$res", "confirmed": $( [ "$d0" = "0" ] && [ "$d1" = "1" ] && echo true || echo false )}
+ "checks_run": "$res", "confirmed": $( [ "$d0" = "0" ] && [ "$d1" = "1" ] && echo true || echo false ),
+ "how": "patch applied in a scratch worktree of /repo at HEAD (LENTIL_REPO), pinned suite run there, demo run with and without the patch, quick check(s) run against it"}
 EOM
